@@ -13,6 +13,8 @@ from . import p11const as K
 from .harness import Harness, Emitter
 from .p11 import rvname, statename
 from .tlaval import parse_call
+from .p11 import Mech, keyderiv_string
+from .testkeys import RSA1024
 
 USER = {"user": K.CKU_USER, "so": K.CKU_SO, "ctx": K.CKU_CONTEXT_SPECIFIC, "bad": 77}
 BOGUS = 0x7fff0000
@@ -32,7 +34,30 @@ class CoreDriver(Harness):
         return ("o%d" % o).encode()
 
     def labbytes(self, lab):
-        return ("lab-" + lab).encode()
+        return b"" if lab == "e" else ("lab-" + lab).encode()
+
+    def template(self, atoms):
+        """search template for a set of atoms (see P11Core: Search)"""
+        t = []
+        for a in sorted(atoms):
+            if a == "tok":
+                t.append((K.CKA_TOKEN, True))
+            elif a == "sess":
+                t.append((K.CKA_TOKEN, False))
+            elif a == "priv":
+                t.append((K.CKA_PRIVATE, True))
+            elif a == "pub":
+                t.append((K.CKA_PRIVATE, False))
+            elif a == "absent":
+                t.append((K.CKA_PRIME_BITS if self.cls != "data" else K.CKA_ID, ("raw", b"\x00" * 8)))
+            elif a == "wrongsize":
+                k = self.rng.randrange(3)
+                t.append([(K.CKA_TOKEN, ("raw", b"\x01\x00")), (K.CKA_CLASS, ("raw", b"\x04\x00\x00\x00")),
+                          (K.CKA_PRIVATE, ("raw", b""))][k])
+            else:
+                t.append((K.CKA_LABEL, self.labbytes(a)))
+        self.rng.shuffle(t)
+        return t
 
     def create_template(self, o, tokobj, private, lab):
         c = self.cls
@@ -48,7 +73,20 @@ class CoreDriver(Harness):
         if c == "aes":
             return [(K.CKA_CLASS, K.CKO_SECRET_KEY), (K.CKA_KEY_TYPE, K.CKK_AES)] + base + \
                    [(K.CKA_VALUE, bytes(r.randrange(256) for _ in range(16))), (K.CKA_ENCRYPT, True),
-                    (K.CKA_DECRYPT, True)]
+                    (K.CKA_DECRYPT, True), (K.CKA_SIGN, True), (K.CKA_VERIFY, True), (K.CKA_WRAP, True),
+                    (K.CKA_UNWRAP, True), (K.CKA_DERIVE, True), (K.CKA_EXTRACTABLE, True), (K.CKA_SENSITIVE, False)]
+        if c == "rsapriv":
+            k = RSA1024
+            return [(K.CKA_CLASS, K.CKO_PRIVATE_KEY), (K.CKA_KEY_TYPE, K.CKK_RSA)] + base + \
+                   [(K.CKA_MODULUS, k["n"]), (K.CKA_PUBLIC_EXPONENT, k["e"]), (K.CKA_PRIVATE_EXPONENT, k["d"]),
+                    (K.CKA_PRIME_1, k["p"]), (K.CKA_PRIME_2, k["q"]), (K.CKA_EXPONENT_1, k["dp"]),
+                    (K.CKA_EXPONENT_2, k["dq"]), (K.CKA_COEFFICIENT, k["qi"]), (K.CKA_SIGN, True),
+                    (K.CKA_DECRYPT, True), (K.CKA_UNWRAP, True), (K.CKA_EXTRACTABLE, True), (K.CKA_SENSITIVE, False)]
+        if c == "rsapub":
+            k = RSA1024
+            return [(K.CKA_CLASS, K.CKO_PUBLIC_KEY), (K.CKA_KEY_TYPE, K.CKK_RSA)] + base + \
+                   [(K.CKA_MODULUS, k["n"]), (K.CKA_PUBLIC_EXPONENT, k["e"]), (K.CKA_VERIFY, True),
+                    (K.CKA_ENCRYPT, True), (K.CKA_WRAP, True)]
         if c == "cert":
             return [(K.CKA_CLASS, K.CKO_CERTIFICATE), (K.CKA_CERTIFICATE_TYPE, K.CKC_X_509)] + base + \
                    [(K.CKA_SUBJECT, b"\x30\x0b\x31\x09\x30\x07\x06\x03\x55\x04\x03\x0c\x00"),
@@ -138,7 +176,7 @@ class CoreDriver(Harness):
     def unlab(self, b):
         try:
             s = (b or b"").decode()
-            return s[4:] if s.startswith("lab-") else "?" + s
+            return "e" if s == "" else (s[4:] if s.startswith("lab-") else "?" + s)
         except Exception:
             return "?"
 
@@ -227,17 +265,40 @@ class CoreDriver(Harness):
             h, g = self.real(a[0]), self.real(a[1])
             rv, n = p.object_size(h, g)
             ev.update(h=h, g=g)
+        elif name == "MUse":
+            h, g = self.real(a[0]), self.real(a[1])
+            rv, clean = self.use(h, g, a[2])
+            ev.update(h=h, g=g, f=a[2], clean=clean)
+        elif name == "MMake":
+            h = self.real(a[0])
+            self.next_o += 1
+            o = self.next_o
+            rv, g = self.make(h, a[1], o, a[2], a[3], a[4])
+            ev.update(h=h, how=a[1], o=o, tokobj=a[2], priv=a[3], lab=a[4], nh=g if rv == 0 else 0)
+            if rv == 0:
+                self.issue(g, "o")
+        elif name == "MMakePair":
+            h = self.real(a[0])
+            o, o2 = self.next_o + 1, self.next_o + 2
+            self.next_o += 2
+            rv, g1, g2 = self.make_pair(h, o, o2, a[1], a[2], a[3])
+            ev.update(h=h, o=o, o2=o2, tokobj=a[1], priv=a[2], lab=a[3], nh=g1 if rv == 0 else 0,
+                      nh2=g2 if rv == 0 else 0)
+            if rv == 0:
+                self.issue(g1, "o")
+                self.issue(g2, "o")
         elif name in ("MFindAll", "MFindInit"):
             h = self.real(a[0])
-            tmpl = [] if a[1] == "any" else [(K.CKA_LABEL, self.labbytes(a[1]))]
+            atoms = sorted(a[1])
+            tmpl = self.template(atoms)
             if name == "MFindAll":
-                rv, hs = p.find(h, tmpl, batch=3)
+                rv, hs = p.find(h, tmpl, batch=self.rng.choice([1, 2, 3, 7]))
                 found = self.identify(h, hs)
-                ev.update(h=h, tmpl=a[1], found=found)
+                ev.update(h=h, tmpl=atoms, found=found)
                 self.adopt(found)
             else:
                 rv = p.find_init(h, tmpl)
-                ev.update(h=h, tmpl=a[1])
+                ev.update(h=h, tmpl=atoms)
         elif name == "MFind":
             h = self.real(a[0])
             rv, hs, n = p.find_next(h, a[1])
@@ -255,6 +316,129 @@ class CoreDriver(Harness):
         ev["ss"] = ss
         ev["oo"] = oo
         return ev
+
+    # ---------------- using an object as a key: one representative mechanism per entry point and class
+    def temp_key(self, h, **flags):
+        t = [(K.CKA_CLASS, K.CKO_SECRET_KEY), (K.CKA_KEY_TYPE, K.CKK_AES), (K.CKA_TOKEN, False), (K.CKA_PRIVATE, False),
+             (K.CKA_VALUE, bytes(self.rng.randrange(256) for _ in range(16))), (K.CKA_EXTRACTABLE, True),
+             (K.CKA_SENSITIVE, False), (K.CKA_WRAP, True), (K.CKA_UNWRAP, True), (K.CKA_DERIVE, True),
+             (K.CKA_ENCRYPT, True), (K.CKA_DECRYPT, True)]
+        rv, g = self.p.create_object(h, t)
+        return g if rv == 0 else 0
+
+    def drop(self, h, g):
+        if g:
+            self.p.destroy_object(h, g)
+
+    def use(self, h, g, f):
+        """Returns (rv of the call that takes the object, clean) where clean = a refused attempt produced no
+        output (no bytes in the output buffer of the follow-up call, no new object)."""
+        p = self.p
+        asym = self.cls in ("rsapriv", "rsapub", "privkey", "pubkey")
+        zero16 = bytes(16)
+        clean = True
+        if f in ("EncryptInit", "DecryptInit"):
+            kind = "Encrypt" if f == "EncryptInit" else "Decrypt"
+            mech = Mech(K.CKM_RSA_PKCS) if asym else Mech(K.CKM_AES_ECB)
+            rv = p.op_init(kind, h, mech, g)
+            data = zero16 if not (asym and kind == "Decrypt") else bytes(128)
+            r = p.op_io(kind, h, data, 256)
+            if rv != 0 and r["rv"] == 0:
+                clean = False
+            return rv, clean and r["guard"]
+        if f == "SignInit":
+            mech = Mech(K.CKM_RSA_PKCS) if asym else Mech(K.CKM_AES_CMAC)
+            rv = p.op_init("Sign", h, mech, g)
+            r = p.op_io("Sign", h, b"verif-data-12345", 256)
+            if rv != 0 and r["rv"] == 0:
+                clean = False
+            return rv, clean and r["guard"]
+        if f == "VerifyInit":
+            mech = Mech(K.CKM_RSA_PKCS) if asym else Mech(K.CKM_AES_CMAC)
+            rv = p.op_init("Verify", h, mech, g)
+            r2 = p.verify(h, b"verif-data-12345", bytes(128 if asym else 16))
+            if rv != 0 and r2 == 0:
+                clean = False
+            return rv, clean
+        if f == "DigestKey":
+            rv0 = p.op_init("Digest", h, Mech(K.CKM_SHA256))
+            rv = p.digest_key(h, g)
+            r = p.op_final("DigestFinal", h, 64)       # also closes the digest operation
+            if rv0 != 0:
+                return rv0 if rv == 0 else rv, True
+            return rv, True
+        if f == "WrapWith":
+            tmp = self.temp_key(h)
+            mech = Mech(K.CKM_RSA_PKCS) if asym else Mech(K.CKM_AES_KEY_WRAP)
+            rv, blob, n = p.wrap_key(h, mech, g, tmp, bufsize=512)
+            self.drop(h, tmp)
+            return rv, not (rv != 0 and blob)
+        if f == "WrapIt":
+            tmp = self.temp_key(h)
+            mech = Mech(K.CKM_AES_KEY_WRAP_PAD) if asym else Mech(K.CKM_AES_KEY_WRAP)
+            rv, blob, n = p.wrap_key(h, mech, tmp, g, bufsize=2048)
+            self.drop(h, tmp)
+            if rv == K.CKR_WRAPPING_KEY_HANDLE_INVALID and tmp == 0:
+                rv = K.CKR_SESSION_HANDLE_INVALID
+            return rv, not (rv != 0 and blob)
+        tmpl = [(K.CKA_CLASS, K.CKO_SECRET_KEY), (K.CKA_KEY_TYPE, K.CKK_GENERIC_SECRET), (K.CKA_TOKEN, False),
+                (K.CKA_PRIVATE, False), (K.CKA_EXTRACTABLE, True), (K.CKA_SENSITIVE, False)]
+        if f == "UnwrapWith":
+            tmp = self.temp_key(h)
+            blob = bytes(self.rng.randrange(256) for _ in range(128 if asym else 24))
+            if not asym:
+                rvw, b2, n = p.wrap_key(h, Mech(K.CKM_AES_KEY_WRAP), g, tmp, bufsize=64)
+                if rvw == 0 and b2:
+                    blob = b2
+            self.drop(h, tmp)
+            mech = Mech(K.CKM_RSA_PKCS) if asym else Mech(K.CKM_AES_KEY_WRAP)
+            rv, ng = p.unwrap_key(h, mech, g, blob, tmpl)
+            if rv == 0:
+                self.drop(h, ng)
+            return rv, not (rv != 0 and ng)
+        if f == "DeriveFrom":
+            mech = Mech(K.CKM_AES_ECB_ENCRYPT_DATA, keyderiv_string(bytes(range(16))))
+            rv, ng = p.derive_key(h, mech, g, tmpl + [(K.CKA_VALUE_LEN, 16)])
+            if rv == 0:
+                self.drop(h, ng)
+            return rv, not (rv != 0 and ng)
+        raise ValueError(f)
+
+    def make(self, h, how, o, tokobj, private, lab):
+        p = self.p
+        ident = [(K.CKA_TOKEN, bool(tokobj)), (K.CKA_PRIVATE, bool(private)), (K.CKA_LABEL, self.labbytes(lab)),
+                 (K.CKA_ID, self.tagbytes(o))]
+        if how == "generate":
+            return p.generate_key(h, Mech(K.CKM_AES_KEY_GEN), ident + [(K.CKA_VALUE_LEN, 16), (K.CKA_ENCRYPT, True)])
+        if how == "unwrap":
+            k = self.temp_key(h)
+            x = self.temp_key(h)
+            rvw, blob, n = p.wrap_key(h, Mech(K.CKM_AES_KEY_WRAP), k, x, bufsize=64)
+            rv, g = p.unwrap_key(h, Mech(K.CKM_AES_KEY_WRAP), k, blob or bytes(24),
+                                 [(K.CKA_CLASS, K.CKO_SECRET_KEY), (K.CKA_KEY_TYPE, K.CKK_AES)] + ident)
+            self.drop(h, k)
+            self.drop(h, x)
+            if rv == K.CKR_UNWRAPPING_KEY_HANDLE_INVALID and k == 0:
+                rv = K.CKR_SESSION_HANDLE_INVALID
+            return rv, g
+        if how == "derive":
+            b = self.temp_key(h)
+            mech = Mech(K.CKM_AES_ECB_ENCRYPT_DATA, keyderiv_string(bytes(range(16))))
+            rv, g = p.derive_key(h, mech, b, [(K.CKA_CLASS, K.CKO_SECRET_KEY), (K.CKA_KEY_TYPE, K.CKK_GENERIC_SECRET),
+                                              (K.CKA_VALUE_LEN, 16)] + ident)
+            self.drop(h, b)
+            if rv == K.CKR_KEY_HANDLE_INVALID and b == 0:
+                rv = K.CKR_SESSION_HANDLE_INVALID
+            return rv, g
+        raise ValueError(how)
+
+    P256 = bytes.fromhex("06082a8648ce3d030107")
+
+    def make_pair(self, h, o, o2, tokobj, private, lab):
+        common = [(K.CKA_TOKEN, bool(tokobj)), (K.CKA_PRIVATE, bool(private)), (K.CKA_LABEL, self.labbytes(lab))]
+        pub = common + [(K.CKA_ID, self.tagbytes(o)), (K.CKA_EC_PARAMS, self.P256), (K.CKA_VERIFY, True)]
+        priv = common + [(K.CKA_ID, self.tagbytes(o2)), (K.CKA_SIGN, True)]
+        return self.p.generate_key_pair(h, Mech(K.CKM_EC_KEY_PAIR_GEN), pub, priv)
 
     def identify(self, h, hs):
         out = []
